@@ -67,7 +67,7 @@ def save_load(ob, d, ttm):
     ob.frame()
 
 
-OPS = ['clone', 'detach', 'cpu', 'to_dtype', 'to_none', 'to_device', 'to_both', 'to_positional', 'numpy']
+OPS = ['clone', 'detach', 'cpu', 'to_dtype', 'to_none', 'to_device', 'to_both', 'to_positional', 'numpy', 'numpy_of_conj', 'is_cuda']
 
 
 @scenario('C19', 'copies', ['torchtt._tt_base.TT.clone', 'torchtt._tt_base.TT.detach', 'torchtt._tt_base.TT.to', 'torchtt._tt_base.TT.cpu', 'torchtt._tt_base.TT.numpy'],
@@ -75,8 +75,28 @@ OPS = ['clone', 'detach', 'cpu', 'to_dtype', 'to_none', 'to_device', 'to_both', 
           thorough=[dict(op=o, d=d, ttm=t) for o in OPS for d in (1, 2, 3, 4) for t in (False, True)], replay='copies')
 def copies(ob, op, d, ttm):
     ex = ob.ex
-    x = ob.tt('x', d, ttm=ttm)
+    x = ob.tt('x', d, ttm=ttm, dtype='complex128' if op == 'numpy_of_conj' else None)
     ob.replay_args = {'x': 'x', 'op': op}
+    if op == 'is_cuda':
+        r = ex.call(ex.getattr(x, 'is_cuda'), [])
+        ob.prove('on_cpu', r is False or (isinstance(r, bool) and not r))
+        ob.frame()
+        return
+    if op == 'numpy_of_conj':
+        # history: numpy() of an object produced by conj() (torch.conj is lazy: for order 1 full() is a view that keeps the bit)
+        xc = ex.call(ex.getattr(x, 'conj'), [])
+        r = ex.call(ex.getattr(xc, 'numpy'), [])
+        if not isinstance(r, STensor) or r.lib != 'numpy':
+            ob.fail('numpy_array', 'post', 'numpy() returned %r' % (r,))
+            return
+        want = (x.M_ + x.N_) if ttm else x.N_
+        all_eq(ob, 'shape', r.shape, want)
+        if len(r.shape) == len(want):
+            ix = H.fresh_axis_index(ex, r)
+            flat = [i[0] for i in ix]
+            ob.prove_eq('value', r.at(ix), val(ob, x, list(zip(flat[:d], flat[d:])) if ttm else flat).conj())
+        ob.frame()
+        return
     if op == 'to_dtype':
         r = ex.call(ex.getattr(x, 'to'), [], {'dtype': I.DType('float32')})
     elif op == 'to_none':
